@@ -141,6 +141,18 @@ func handleSubStr(params internal.HandlerFuncParams) ([]byte, error) {
 		end = len(value) - internal.AbsInt(end)
 	}
 
+	// Indices that still point before the first byte address the start of the string, and a
+	// start past the last byte addresses its end.
+	if start < 0 {
+		start = 0
+	}
+	if end < 0 {
+		end = 0
+	}
+	if start > len(value) {
+		start = len(value)
+	}
+
 	if end >= 0 && end >= start {
 		end += 1
 	}
